@@ -142,6 +142,9 @@ pub fn base_classes(sc: &Scenario, out: &Outcome) -> Vec<&'static str> {
     if sc.predictor == 1 {
         c.push("predict_default");
     }
+    if sc.predictor == 2 {
+        c.push("custom_predictor(x|1)");
+    }
     if sc.wide {
         c.push("wide_input");
     }
